@@ -18,7 +18,7 @@ SPEC_FORMS = {"old", "forall", "exists", "implies", "result", "unfold", "iff", "
               "count", "raised", "fresh_const", "pw2", "cls_name", "str_contains", "dyn_float", "to_dyn", "let",
               "map_has", "seq_contains", "str_to_int", "int_to_str", "d_int", "d_float", "d_list", "d_chars", "d_is_int",
               "d_is_float", "d_is_list", "d_is_str", "d_is_dict", "d_is_none", "bitlen", "d_mk_list", "d_mk_str", "d_mk_float",
-              "d_mk_int", "d_mk_dict_empty", "d_set", "size", "d_absent"}
+              "d_mk_int", "d_mk_dict_empty", "d_set", "size", "d_absent", "fn_name"}
 
 
 class EvalMixin:
@@ -133,11 +133,7 @@ class EvalMixin:
     def getattr(self, st, v, name, loc=None):
         if isinstance(v, Union):
             if st.spec:
-                vals = [(c, self.getattr(st, x, name, loc)) for c, x in v.alts]
-                out = vals[-1][1]
-                for c, x in reversed(vals[:-1]):
-                    out = self.merge(st, c, x, out)
-                return out
+                return self.spec_map_union(st, v, lambda x: self.getattr(st, x, name, loc))
             v = self.force(st, v, "attr")
         if isinstance(v, HeapRef):
             o = st.obj(v)
@@ -182,6 +178,8 @@ class EvalMixin:
                 ft = self.field_T(cls, name) if cls else None
                 if ft is not None:
                     return self.read_field(st, v.e, name, ft)
+                if name == "get" and (self.classes.get(cls) or {}).get("dictlike"):
+                    return Builtin("refdict.get", self_val=(v, loc))
                 return MethodRef(v, name)
             return Builtin(f"{k}.{name}", self_val=(v, loc))
         if isinstance(v, Arr):
@@ -210,6 +208,8 @@ class EvalMixin:
             return self.super_getattr(st, v, name)
         if isinstance(v, Func) and name in ("__name__",):
             return zstr(v.qualname.split(".")[-1])
+        if isinstance(v, Builtin) and v.name.startswith("ext:"):
+            return Builtin(v.name + "." + name)
         if v is NONE:
             if st.spec:
                 raise OutsideSubset(f"attribute {name} of None")
@@ -390,32 +390,66 @@ class EvalMixin:
             st.bound.pop()
             st.spec -= 1
             st.frames.pop()
+        if isinstance(ev, PyTuple) and all(isinstance(x, Z) and x.t.is_smt() for x in ev.items):
+            tt = T("tuple", tuple(x.t for x in ev.items))
+            ev = self.to_z(st, ev, tt)
+        if isinstance(ev, Union) or ev is NONE:
+            ev = Z(T("dyn"), self.to_dyn(st, ev))
         if isinstance(ev, PyTuple):
             raise OutsideSubset("tuple-valued comprehension over symbolic data")
         if not isinstance(ev, Z) or not (ev.t.is_smt() or ev.t.kind == "char"):
             raise OutsideSubset(f"comprehension element {ev!r} is not an SMT value")
         rs = z3.SeqSort(ev.e.sort())
-        key = ("map", ev.e.sexpr(), it.e.sexpr(), tuple(c.sexpr() for c in conds))
-        cache = st.ghost.setdefault("__maps", {})
-        if key in cache:
-            return cache[key]
+        # the mapped sequence is an uninterpreted function of the source sequence and of the other free constants of the
+        # element expression; the same comprehension text therefore denotes the same term in code and in contracts
+        frees = self.free_consts(ev.e, xb) + [c for cnd in conds for c in self.free_consts(cnd, xb)]
+        seen_ids, fr2 = set(), []
+        for c in frees:
+            if c.get_id() not in seen_ids:
+                seen_ids.add(c.get_id())
+                fr2.append(c)
+        frees = sorted(fr2, key=lambda c: str(c))
         import hashlib
-        h = hashlib.sha1(repr(key).encode()).hexdigest()[:10]
-        r = z3.Const(f"map!{h}", rs)
+        canon = z3.substitute(ev.e, *[(c, z3.Const(f"fc!{i}", c.sort())) for i, c in enumerate(frees)]) if frees else ev.e
+        ccanon = [z3.substitute(cnd, *[(c, z3.Const(f"fc!{i}", c.sort())) for i, c in enumerate(frees)]) if frees else cnd for cnd in conds]
+        h = hashlib.sha1(repr((canon.sexpr(), tuple(c.sexpr() for c in ccanon), str(it.e.sort()))).encode()).hexdigest()[:10]
+        fn = smt.ufunc(f"map.{h}", it.e.sort(), *[c.sort() for c in frees], rs)
+        r = fn(it.e, *frees)
         rt = T("seq", (ev.t,))
         res = Z(rt, r)
-        cache[key] = res
+        key = r.sexpr()
+        cache = st.ghost.setdefault("__maps", set())
+        if key in cache:
+            return res
+        cache.add(key)
+
+        def close(ax):
+            bs = [b for b in st.bound if self._mentions(ax, b)]
+            return z3.ForAll(bs, ax) if bs else ax
+
         if not conds:
             i = z3.Const("mi!", Int)
             body = z3.substitute(ev.e, (xb, smt.seq_nth(it.e, i)))
-            st.axioms.append(z3.Length(r) == z3.Length(it.e))
-            st.axioms.append(z3.ForAll([i], z3.Implies(z3.And(0 <= i, i < z3.Length(it.e)), r[i] == body), patterns=[r[i]]))
-            st.ghost.setdefault("__mapdefs", []).append((r, it.e, xb, ev.e, None))
+            st.axioms.append(close(z3.Length(r) == z3.Length(it.e)))
+            st.axioms.append(close(z3.ForAll([i], z3.Implies(z3.And(0 <= i, i < z3.Length(it.e)), smt.seq_nth(r, i) == body))))
         else:
-            # filtered map: only structural facts (length bound); contents are tied to the source through `filter_map` lemmas
-            st.axioms.append(z3.Length(r) <= z3.Length(it.e))
-            st.ghost.setdefault("__mapdefs", []).append((r, it.e, xb, ev.e, z3.And(conds)))
+            # filtered map: only a structural fact (length bound); code and spec use the same term
+            st.axioms.append(close(z3.Length(r) <= z3.Length(it.e)))
         return res
+
+    def free_consts(self, e, exclude):
+        out = {}
+
+        def walk(x):
+            if z3.is_const(x) and x.decl().kind() == z3.Z3_OP_UNINTERPRETED:
+                if not x.eq(exclude):
+                    out[x.get_id()] = x
+                return
+            for c in x.children():
+                walk(c)
+
+        walk(e)
+        return list(out.values())
 
     # ----------------------------------------------------------------- subscripts
     def ev_Subscript(self, st, n):
@@ -426,13 +460,11 @@ class EvalMixin:
         return self.index(st, c, k)
 
     def index(self, st, c, k):
+        if isinstance(c, Opaque):
+            return Opaque(c.tag + "[]")
         if isinstance(c, Union):
             if st.spec:
-                vals = [(cc, self.index(st, x, k)) for cc, x in c.alts]
-                out = vals[-1][1]
-                for cc, x in reversed(vals[:-1]):
-                    out = self.merge(st, cc, x, out)
-                return out
+                return self.spec_map_union(st, c, lambda x: self.index(st, x, k))
             c = self.force(st, c, "index")
         if isinstance(c, PyTuple):
             i = const_int(k)
